@@ -213,7 +213,9 @@ PROPS = {
         "extract_keys": ["HEX_", "decode_digit", "hash prefix", "LEN_IN_STR"],
         "spec_is_property": True,
         "streams": {
-            "quick": [(c, "parse", 3000) for c in ['default', 'optdef', 'embedded', 'quarter', 'mintab', 'hexsimd-only']] + [(c, "parse-sweep", 24) for c in ['default', 'optdef', 'embedded', 'quarter', 'mintab', 'hexsimd-only']],
+            "quick": [(c, "parse", 3000) for c in ['default', 'optdef', 'embedded', 'quarter', 'mintab', 'hexsimd-only']] + [(c, "parse-sweep", 24) for c in ['default', 'optdef', 'embedded', 'quarter', 'mintab', 'hexsimd-only']]
+                     # overflow checks on: arithmetic on a digit / prefix byte must not panic (round 8)
+                     + [("default-dev", "parse-sweep", 24), ("default-dev", "parse", 1500)],
             "thorough": [(c, "parse", 60000) for c in ['default', 'optdef', 'embedded', 'quarter', 'mintab', 'hexsimd-only']] + [(c, "parse-sweep", 1) for c in ['default', 'optdef', 'embedded', 'quarter', 'mintab', 'hexsimd-only']]
                         + [("unsafe", "parse", 20000), ("naive", "parse", 20000), ("default-dev", "parse-sweep", 4)],
         },
